@@ -208,6 +208,10 @@ def D3(m, R):
                 problems.append('twin is neither in-place capable nor a mutator: copy/call/re-wrap discards its result')
             R.check(not problems, sf, sf.node, 'copy; %s on the copy with the same arguments; re-wrap' % name, '; '.join(problems), construct=cons)
             continue
+        if len(body) == 2 and isinstance(body[0], ast.Assign) and isinstance(body[1], ast.Return) and norm(body[0].value) == '%s.copy()' % wrapped \
+                and call_name(body[1].value) == 'AnsiStr' and [norm(a) for a in body[1].value.args] == [norm(body[0].targets[0])] and (tw_inplace or tw_mutator):
+            R.viol(sf, sf.node, 'copies the wrapped string and re-wraps it but never applies %s to the copy: the method returns an unchanged value' % name, construct=cons)
+            continue
         expr, ret = single_return(sf)
         if expr is None:
             # __eq__ : isinstance guard then compare renderings
